@@ -626,3 +626,15 @@ Proof.
   - intros _. apply in_or_app. right. now left.
   - discriminate.
 Qed.
+
+(* what one delivery does to an arbitrary task: nothing, or a request with this origin *)
+Lemma deliver_top_task s c t : wait_link s ->
+  (tasks (deliver_top s c) t = tasks s t /\
+   forall f, k_waiter (tasks s t) = Some f -> futs (deliver_top s c) f = futs s f) \/
+  requested (deliver_top s c) t (S c).
+Proof.
+  intros WL.
+  assert (HQ : Q s c s).
+  { split; [apply kframe_refl|]. intros x. left. split; [reflexivity|]. intros; reflexivity. }
+  destruct (Q_deliver s c WL (S (nscope s)) s c HQ) as [[_ H] _]. exact (H t).
+Qed.
